@@ -600,6 +600,8 @@ func runC04(c *Ctx, r *Report) {
 	importRules(c, r, "C05", []string{"R-C05.1"}, "R-C04.9")
 	r.Doc("R-C04.10", "what a merge stores into the log it reads in the same critical section (adopted from C13: a clock id read before the lock is taken again overwrites the clock an identity change installed in between — entries then carry the previous writer's key as clock id)")
 	importRules(c, r, "C13", []string{"R-C13.12"}, "R-C04.10", 0)
+	r.Doc("R-C04.11", "a refused merge leaves the entry index, the predecessor index and the heads untouched (adopted from C02: batches filed before a later batch is refused stay in the index without being heads — the next append neither names nor dominates them)")
+	importRules(c, r, "C02", []string{"R-C02.7"}, "R-C04.11")
 	r.Doc("R-C04.8", "the appended entry becomes the single head whatever it contains: the head-set constructor files every existing entry (adopted from C02)")
 	importRules(c, r, "C02", []string{"R-C02.11"}, "R-C04.8")
 	loopsComplete(c, r, "R-C04.7", func(fn *Fn) bool {
